@@ -17,7 +17,8 @@ from rules.utilfn import r20_7
 from rules.utilfn import r06_9
 from rules.utilfn import r10_8
 from rules.prefilter import r05_10
-RULES = [('R06.7', r06_7), ('R05.9', r05_9), ('R15.4', r15_4), ('R05.8', r05_8), ('R05.7', r05_7), ('R05.1', r05_1), ('R05.2', r05_2), ('R05.3', r05_3), ('R05.4', r05_4), ('R05.5', r05_5), ('R05.6', r05_6), ('R19.1', r19_1), ('R09.3', r09_3), ('R07.6', r07_6), ('R06.1', r06_1), ('R10.5', r10_5), ('R06.4', r06_4), ('R06.10', r06_10), ('R11.2', r11_2), ('R06.8', r06_8), ('R20.7', r20_7), ('R06.9', r06_9), ('R10.8', r10_8), ('R05.10', r05_10)]
+from rules.agree import r11_3
+RULES = [('R06.7', r06_7), ('R05.9', r05_9), ('R15.4', r15_4), ('R05.8', r05_8), ('R05.7', r05_7), ('R05.1', r05_1), ('R05.2', r05_2), ('R05.3', r05_3), ('R05.4', r05_4), ('R05.5', r05_5), ('R05.6', r05_6), ('R19.1', r19_1), ('R09.3', r09_3), ('R07.6', r07_6), ('R06.1', r06_1), ('R10.5', r10_5), ('R06.4', r06_4), ('R06.10', r06_10), ('R11.2', r11_2), ('R06.8', r06_8), ('R20.7', r20_7), ('R06.9', r06_9), ('R10.8', r10_8), ('R05.10', r05_10), ('R11.3', r11_3)]
 EXPLANATION = """R05.1 RareBytesBuilder::add records set_offset(pos, b) for every byte of every pattern before any `continue`; R05.2
 RareByteOffsets::set keeps the maximum, offsets above 255 are rejected and patterns of 256+ bytes disable the builder before any
 offset is recorded; R05.3 candidate arithmetic of the eight PrefilterI::find_in implementations (search haystack[span]; start bytes:
